@@ -255,8 +255,25 @@ struct ReqPlan {
     fate: &'static str,     // normal | disc_after_send | disc_after_enter | disc_after_step | disc_after_complete | disc_partial
 }
 
+/// Request headers that must not change how a request is handled: hop-by-hop offers and negotiation headers
+/// that ordinary clients send (`curl --http2` offers an h2c upgrade on every cleartext request; hyper serves
+/// such a request as plain HTTP/1.1).  Chosen per request from its nonce, so that a request looks the same
+/// whenever its bytes are rebuilt.
+fn extra_headers(nonce: &str) -> Vec<(String, String)> {
+    let h: u32 = nonce.bytes().fold(17u32, |a, b| a.wrapping_mul(31).wrapping_add(b as u32));
+    match h % 8 {
+        0 => vec![("Connection".into(), "Upgrade, HTTP2-Settings".into()), ("Upgrade".into(), "h2c".into()),
+                  ("HTTP2-Settings".into(), "AAMAAABkAAQCAAAAAAIAAAAA".into())],
+        1 => vec![("Accept".into(), "*/*".into()), ("Accept-Encoding".into(), "gzip, br".into())],
+        2 => vec![("Upgrade".into(), "websocket".into())],
+        3 => vec![("TE".into(), "trailers".into()), ("Connection".into(), "TE".into())],
+        _ => vec![],
+    }
+}
+
 fn request_bytes(p: &ReqPlan) -> Vec<u8> {
-    let hdr = vec![("x-verif-nonce".to_string(), p.nonce.clone())];
+    let mut hdr = vec![("x-verif-nonce".to_string(), p.nonce.clone())];
+    hdr.extend(extra_headers(&p.nonce));
     match p.kind {
         "gate" => httpc::build_request("GET", &format!("/gate/{}", p.nonce), &hdr, None),
         "gatedrop" => httpc::build_request("GET", &format!("/gatedrop/{}", p.nonce), &hdr, None),
